@@ -20,8 +20,10 @@ MCAmps == { A("std_medium_gain", "variable_gain", 15, 26, 23, 0),
 
 MCGainTargets(a) == {g \in {a.gainMin - 6 * dB, a.gainMin - 1 * dB, a.gainMin, (a.gainMin + a.flatMax) \div 2,
                             a.flatMax, a.flatMax + 2 * dB} : g >= 0}
-Var(iv, ov, nin, nout, ramp) == [inVoa |-> iv, outVoa |-> ov, nIn |-> nin, nOut |-> nout, ramp |-> ramp]
-MCVariants == {Var(0, 0, 16, 0, 0), Var(1500000, 2 * dB, 12, 2, 0), Var(0, 1 * dB, 12, 0, 1)}
+\* edge = 1: the out-of-band channels sit just outside the amplifier band (slot edge 1 GHz / 0.5 GHz beyond f_max / f_min);
+\* edge = 0: far outside.  nIn = 1: a single channel of a wider spectrum lies in the band.
+Var(iv, ov, nin, nout, ramp, edge) == [inVoa |-> iv, outVoa |-> ov, nIn |-> nin, nOut |-> nout, ramp |-> ramp, edge |-> edge]
+MCVariants == {Var(0, 0, 16, 0, 0, 0), Var(1500000, 2 * dB, 12, 2, 0, 1), Var(0, 1 * dB, 12, 0, 1, 0), Var(0, 0, 1, 2, 0, 0)}
 MCTilts    == {0, 0 - 1500000}
 MCPinTots  == {0 - 25 * dB, 0 - 10 * dB, 0, 6 * dB, 12 * dB}
 MCPinTotsQuick == {0 - 25 * dB, 6 * dB, 12 * dB}
@@ -30,7 +32,7 @@ Emit == Len(hist) < MaxCross \/ PrintT("@@" \o ToJson([amp |-> amp, set |-> set,
 
 (* ---- NF sweep laws of LineElements: checked here on an integer min/max-NF curve, and shown to reject   ---- *)
 (* ---- the curves a defect would produce (TLC evaluates the ASSUMEs before exploring)                        ---- *)
-SwCfg == [gainMin |-> 15 * dB, flatMax |-> 25 * dB, nfMin |-> 6 * dB, nfMax |-> 10 * dB, minmax |-> 1, poly |-> 0, dual |-> 0]
+SwCfg == [gainMin |-> 15 * dB, flatMax |-> 25 * dB, nfMin |-> 6 * dB, nfMax |-> 10 * dB, minmax |-> 1, poly |-> 0, dual |-> 0, cascade |-> 0]
 SwPoly == [SwCfg EXCEPT !.minmax = 0, !.poly = 1]
 \* ideal curve: nfMax + dB-for-dB padding below gainMin, linear nfMax -> nfMin inside the range, flat above
 NfIdeal(g) == IF g < SwCfg.gainMin THEN SwCfg.nfMax + (SwCfg.gainMin - g)
